@@ -61,7 +61,7 @@ def run(ctx):
         # the accumulator returned is the one the arms update
         rets = [M.render(pv.of_operand(st["rv"]["a"])) for b in g.blocks for st in b["stmts"] if st["k"] == "assign" and M.Place(st["pl"]).is_local()
                 and M.Place(st["pl"]).local == 0 and st["rv"]["k"] == "use"]
-        ctx.ob("R1", "returns-the-accumulator", len(rets) == 1 and rets[0].endswith("Effects>::empty()") or rets == ["var:effects"], g.loc(0), "returns %s" % rets, g)
+        ctx.ob("R1", "returns-the-accumulator", len(rets) == 1 and rets[0].endswith("Effects>::empty()") or (len(rets) == 1 and re.match(r"^var:\w+$", rets[0]) is not None), g.loc(0), "returns %s" % rets, g)
         # loop over all ops
         at = []
         for bbs in seen.values():
